@@ -13,11 +13,13 @@ package simsync
 
 import (
 	"fmt"
+	"runtime"
 	"runtime/debug"
 	"strconv"
 	"strings"
 	"sync"
 	"sync/atomic"
+	"time"
 
 	"github.com/dadrus/heimdall/internal/verifsim/simcore"
 )
@@ -44,6 +46,7 @@ type task struct {
 	site    string
 	done    bool
 	arrived bool // pending write-lock request that blocks later readers (writer preference)
+	stalled bool // blocked outside the scheduler's control (see Sched.StallTimeout)
 	panicV  any
 	stack   string
 }
@@ -53,7 +56,7 @@ type Sched struct {
 	run     *simcore.Run
 	tasks   []*task
 	running *task
-	back    chan struct{}
+	back    chan *task
 	step    int64
 	stamp   int64
 	policy  int
@@ -68,6 +71,14 @@ type Sched struct {
 	Quiet bool
 	// PanicProperty, when set, is the property a task panic is attributed to (default: the run's property).
 	PanicProperty string
+	// StallTimeout, when positive, bounds the wall-clock time a resumed task may take to reach its next scheduling
+	// point. A task that does not is taken to be blocked on something the scheduler does not control (a foreign lock,
+	// a wait group of a library): it is set aside, the others go on, and it takes part again once it arrives at a
+	// scheduling point. Off by default: with it, a stretch of such a task may overlap with the running task for real.
+	StallTimeout time.Duration
+	stalls       int
+	idMu         sync.Mutex
+	byGoroutine  map[int64]*task
 }
 
 var active atomic.Pointer[Sched]
@@ -76,7 +87,7 @@ var active atomic.Pointer[Sched]
 //
 //go:norace
 func New(r *simcore.Run) *Sched {
-	s := &Sched{run: r, back: make(chan struct{}), maxStep: 200000}
+	s := &Sched{run: r, back: make(chan *task), maxStep: 200000}
 	s.policy = r.Src.Draw(3, "sched-policy") // 0 uniform (current task first), 1 sticky, 2 few-switches
 	return s
 }
@@ -93,6 +104,15 @@ func (s *Sched) Go(name string, fn func()) {
 
 //go:norace
 func (s *Sched) taskMain(t *task) {
+	if s.StallTimeout > 0 {
+		// (outside the RaceDisable window: the detector has to see this mutex)
+		s.idMu.Lock()
+		if s.byGoroutine == nil {
+			s.byGoroutine = map[int64]*task{}
+		}
+		s.byGoroutine[goid()] = t
+		s.idMu.Unlock()
+	}
 	raceDisable()
 	<-t.wake
 	raceEnable()
@@ -105,7 +125,7 @@ func (s *Sched) taskMain(t *task) {
 		t.kind = opDone
 		s.wg.Done()
 		raceDisable()
-		s.back <- struct{}{}
+		s.back <- t
 		raceEnable()
 	}()
 	t.fn()
@@ -116,14 +136,14 @@ func (s *Sched) taskMain(t *task) {
 //go:norace
 func (s *Sched) park(t *task) {
 	raceDisable()
-	s.back <- struct{}{}
+	s.back <- t
 	<-t.wake
 	raceEnable()
 }
 
 //go:norace
 func (s *Sched) enabled(t *task) bool {
-	if t.done {
+	if t.done || t.stalled {
 		return false
 	}
 	switch t.kind {
@@ -167,6 +187,21 @@ func (s *Sched) Run() {
 				t.arrived = true
 			}
 		}
+		// tasks that were blocked outside the scheduler and have arrived at a scheduling point meanwhile
+		for s.stalls > 0 {
+			raceDisable()
+			var t *task
+			select {
+			case t = <-s.back:
+			default:
+			}
+			raceEnable()
+			if t == nil {
+				break
+			}
+			t.stalled = false
+			s.stalls--
+		}
 		var en []*task
 		if cur != nil && s.enabled(cur) {
 			en = append(en, cur)
@@ -183,10 +218,30 @@ func (s *Sched) Run() {
 		if unfinished == 0 {
 			break
 		}
+		if len(en) == 0 && s.stalls > 0 {
+			// everybody else waits for a task that is blocked outside: give it time to arrive
+			raceDisable()
+			var t *task
+			timer := time.NewTimer(20 * s.StallTimeout)
+			select {
+			case t = <-s.back:
+			case <-timer.C:
+			}
+			timer.Stop()
+			raceEnable()
+			if t != nil {
+				t.stalled = false
+				s.stalls--
+				cur = nil
+				continue
+			}
+		}
 		if len(en) == 0 {
 			var w []string
 			for _, t := range s.tasks {
-				if !t.done {
+				if !t.done && t.stalled {
+					w = append(w, fmt.Sprintf("%s is blocked outside the scheduler's control after %s", t.name, t.site))
+				} else if !t.done {
 					w = append(w, fmt.Sprintf("%s waits at %s (%s)", t.name, t.site, kindName(t.kind)))
 				}
 			}
@@ -228,9 +283,36 @@ func (s *Sched) Run() {
 		s.running = next
 		raceDisable()
 		next.wake <- struct{}{}
-		<-s.back
+		if s.StallTimeout <= 0 {
+			<-s.back
+		} else {
+			timer := time.NewTimer(s.StallTimeout)
+			for waiting := true; waiting; {
+				select {
+				case t := <-s.back:
+					if t == next {
+						waiting = false
+					} else {
+						// a task set aside earlier has arrived at a scheduling point
+						t.stalled = false
+						s.stalls--
+					}
+				case <-timer.C:
+					next.stalled = true
+					s.stalls++
+					waiting = false
+				}
+			}
+			timer.Stop()
+		}
 		raceEnable()
 		s.running = nil
+		if next.stalled {
+			s.run.Count("tasks-blocked-outside-the-scheduler", 1)
+			s.sig.WriteString("stall;")
+			cur = nil
+			continue
+		}
 		if next.done && next.panicV != nil {
 			site := panicSite(next.stack)
 			if s.PanicProperty != "" {
@@ -353,10 +435,41 @@ func (s *Sched) Signature() string { return s.sig.String() }
 //go:norace
 func current() (*Sched, *task) {
 	s := active.Load()
-	if s == nil || s.running == nil {
+	if s == nil {
+		return nil, nil
+	}
+	if s.StallTimeout > 0 {
+		// a task set aside as blocked may come back while another one runs: identify the caller by its goroutine
+		id := goid()
+		s.idMu.Lock()
+		t := s.byGoroutine[id]
+		s.idMu.Unlock()
+		if t == nil {
+			return nil, nil
+		}
+		return s, t
+	}
+	if s.running == nil {
 		return nil, nil
 	}
 	return s, s.running
+}
+
+// goid returns the id of the calling goroutine (parsed from its stack header; used in stall mode only).
+//
+//go:norace
+func goid() int64 {
+	var buf [40]byte
+	n := runtime.Stack(buf[:], false)
+	// "goroutine 123 [running]:"
+	var id int64
+	for _, c := range buf[len("goroutine "):n] {
+		if c < '0' || c > '9' {
+			break
+		}
+		id = id*10 + int64(c-'0')
+	}
+	return id
 }
 
 // Yield is a scheduling point. Outside a simulation it does nothing.
